@@ -59,8 +59,9 @@ def check_target(acc, n, edges, form, backend, setting, tier, seen=None):
         import traceback
         tb = traceback.extract_tb(e.__traceback__)
         where = tb[-1].name if tb else "?"
-        acc.violation("solve", "TimeReversedSolver.solve", "raises-%s@%s" % (type(e).__name__, where), case,
-                      "a circuit", repr(e)[:200])
+        # the function the exception surfaced in goes into the observation, not into the key: a refactor may move it
+        acc.violation("solve", "TimeReversedSolver.solve", "raises-%s" % type(e).__name__, case,
+                      "a circuit", "%s in %s" % (repr(e)[:200], where))
         return
     try:
         circ.validate()
